@@ -5,7 +5,7 @@
    (Proofs/EncXmlProofs.v §2), hypotheses node_ok / lang_ok (boolean). *)
 From Coq Require Import List NArith Bool.
 From Wbxml Require Import Model.TablesDefs Model.Codec Model.EncXml Model.XmlRead Gen.TablesData
-     Proofs.EncXmlProofs Proofs.EncXmlIndent Proofs.EncXmlTables.
+     Proofs.EncXmlProofs Proofs.EncXmlIndent Proofs.EncXmlC07 Proofs.EncXmlTables.
 Import ListNotations.
 Local Open Scope N_scope.
 
@@ -34,19 +34,25 @@ Print Assumptions C05_canonical_preserves_cr_lf_tab.
 
 (* --- reading the document back ------------------------------------------------------------------------- *)
 
-(* PARTIAL in the kinds of nodes only: EVERY generation mode (compact, indented with any width and at any depth —
-   the 8-bit depth counter is threaded mod 256 —, canonical) and both white-space settings, for trees made of
-   elements (token or literal names, attributes, namespaces per code page) and text; hypotheses = the
-   property's, as boolean predicates (node_ok: names are XML names, text and attribute values are XML
-   characters, no attribute name twice — counting the generated xmlns —, no raw CR outside canonical
-   generation since a reader normalises it, text not under a binary-flagged tag).  The reader accepts the
-   output, the DOCTYPE is the language's (doc_of l), the root element is the specified one: info_g, the exact
-   infoset including the white space that indented generation writes between markup (and nowhere else).
-   MISSING from the theorem (corresponded by the check against pyexpat only): CDATA sections and embedded
-   documents, base64 of binary-flagged elements, raw CR in non-canonical modes. *)
+(* EVERY generation mode (compact, indented with any width and at any depth — the 8-bit depth counter is
+   threaded mod 256 —, canonical) and both white-space settings, for every kind of node the WBXML tree builder
+   makes except processing instructions (which the generator refuses): elements (token or literal names,
+   attributes, namespaces per code page), text, CDATA nodes (one payload text; every "]]>" of it is split over two
+   sections and put together again by the reader: sections are never nested and never unterminated), embedded
+   documents (SyncML DevInf / DM tree: generated with their own language, read in place).
+   Hypotheses = the property's, as boolean predicates (node_ok_g: names are XML names, text and attribute values
+   are XML characters, no attribute name twice — counting the generated xmlns —, no raw CR outside canonical
+   generation and inside CDATA since a reader normalises it; the content of a binary-flagged element is
+   arbitrary octets < 256 and is read back as their base64 text).
+   The reader accepts the output, the DOCTYPE is the language's (doc_of l), the root element is the specified
+   one: info_g, the exact infoset including the white space that indented generation writes between markup
+   (and nowhere else).
+   PARTIAL only in this: a raw CR in non-canonical modes or inside CDATA (which an XML reader turns into LF —
+   "XML's own normalisation" of the property) is excluded by hypothesis and corresponded by the check against
+   pyexpat; processing-instruction nodes make the conversion fail (WBXML_ERROR_NOT_IMPLEMENTED). *)
 Theorem C05_read_enc_partial : forall l o nm attrs ch out,
   lang_ok l = true ->
-  node_ok l o proot None (Elt nm attrs ch) = true ->
+  node_ok_g l o proot None (Elt nm attrs ch) = true ->
   enc_xml_opts l o [Elt nm attrs ch] = XOk out ->
   exists c s',
     info_g l o proot (est0 0) (Elt nm attrs ch) =
@@ -131,14 +137,26 @@ Theorem C07_xml_compact_canonical_partial : forall l i1 i2 nm attrs ch out1 out2
 Proof. exact c07_xml_compact_canonical. Qed.
 Print Assumptions C07_xml_compact_canonical_partial.
 
+(* the same for every node kind of the main theorem (CDATA nodes, embedded documents, base64 content) *)
+Theorem C07_xml_compact_canonical : forall l i1 i2 nm attrs ch out1 out2,
+  lang_ok l = true -> plain_attrs_g (Elt nm attrs ch) = true ->
+  node_ok_g l (opts_of_params Compact i1 true) proot None (Elt nm attrs ch) = true ->
+  node_ok_g l (opts_of_params Canonical i2 true) proot None (Elt nm attrs ch) = true ->
+  enc_xml l Compact i1 true [Elt nm attrs ch] = XOk out1 ->
+  enc_xml l Canonical i2 true [Elt nm attrs ch] = XOk out2 ->
+  forall fuel, (node_fuel (Elt nm attrs ch) + 2 <= fuel)%nat ->
+    exists d, read_xml fuel out1 = ROk d /\ read_xml fuel out2 = ROk d.
+Proof. exact c07_xml_compact_canonical_g. Qed.
+Print Assumptions C07_xml_compact_canonical.
+
 (* indented generation with ANY indent width (an arbitrary N, reduced mod 256 as the C's WB_UTINY) at any nesting
    depth (8-bit depth counter mod 256) and compact generation of one tree: both are accepted, carry the
    language's DOCTYPE, and their root elements are equal modulo blank text between markup (nb: in every element
    that has an element child each run of character data is trimmed and blank runs are dropped; elements with
-   only character data are compared exactly).  PARTIAL only in the kinds of nodes (elements and text). *)
+   only character data are compared exactly).  Same node kinds and hypotheses as C05_read_enc_partial. *)
 Theorem C07_xml_indent_compact_partial : forall l indent indent' keep_ws nm attrs ch out_i out_c,
   lang_ok l = true ->
-  node_ok l (opts_of_params Compact indent' keep_ws) proot None (Elt nm attrs ch) = true ->
+  node_ok_g l (opts_of_params Compact indent' keep_ws) proot None (Elt nm attrs ch) = true ->
   enc_xml l Indent indent keep_ws [Elt nm attrs ch] = XOk out_i ->
   enc_xml l Compact indent' keep_ws [Elt nm attrs ch] = XOk out_c ->
   forall fuel, (node_fuel (Elt nm attrs ch) + 2 <= fuel)%nat ->
@@ -154,6 +172,12 @@ Example C05_hypotheses_satisfiable :
   node_ok syncml11 (opts_of_params Canonical 0 true) proot None ok_tree = true /\
   plain_attrs ok_tree = true.
 Proof. exact ok_tree_hypotheses. Qed.
+
+(* ... also with a CDATA payload containing the three bytes of a CDATA end and an embedded DevInf document *)
+Example C05_hypotheses_satisfiable_cdata_subtree :
+  node_ok_g syncml11 (opts_of_params Indent 2 false) proot None full_tree = true /\
+  exists out d, enc_xml syncml11 Indent 2 false [full_tree] = XOk out /\ read_xml_auto out = ROk d.
+Proof. exact full_tree_ok. Qed.
 
 Example C05_reads_back_awkward_text :
   exists out d, enc_xml syncml11 Canonical 0 true [ok_tree] = XOk out /\ read_xml_auto out = ROk d.
